@@ -941,7 +941,9 @@ def fn_edits(src, toks, f, c, mode, mapping, variant):
     pre = '/*@F %s*/ ' % variant['marker']
     attrs = ''.join('#[%s]\n' % a for a in c.attrs)
     if variant['external_body']:
-        if variant.get('note') == 'NOT-IN-STRICT':
+        if variant.get('note') == 'VACUITY-ORIGINAL':
+            attrs += '#[verifier::external_body] /*@VACUITY-ORIGINAL: not verified in the vacuity file*/\n'
+        elif variant.get('note') == 'NOT-IN-STRICT':
             attrs += '#[verifier::external_body] /*@NOT-IN-STRICT: contract proved in lenient mode, assumed here*/\n'
         else:
             attrs += '#[verifier::external_body] /*@SPLIT-ORIGINAL: every ensures clause is proved on the copies below*/\n'
@@ -1002,7 +1004,7 @@ def fn_edits(src, toks, f, c, mode, mapping, variant):
     return edits, item_start, len(loops), len(closures)
 
 
-def weave(src, modpath, contracts, mode, report, used):
+def weave(src, modpath, contracts, mode, report, used, vacuity_props=None):
     toks = lex(src)
     fns, types = scan_items(toks, modpath)
     edits = []
@@ -1024,7 +1026,46 @@ def weave(src, modpath, contracts, mode, report, used):
                            % (f.qname, len(c.params), len(f.params)))
         mapping = {a: b for a, b in zip(c.params, f.params) if a != b}
         groups = [g for g in c.groups if g['mode'] in ('both', mode)]
-        if mode == 'strict' and not c.strict:
+        if vacuity_props is not None:
+            # vacuity file: nothing is re-verified; for every function carrying a clause of the property a twin
+            # claims the opposite of reachability (`r is Err` / `false`) under the same preconditions - it MUST fail
+            e, item_start, nl, nc = fn_edits(src, toks, f, c, mode, mapping,
+                                             {'suffix': None, 'labels': None, 'extra_requires': [],
+                                              'external_body': True, 'marker': f.qname, 'note': 'VACUITY-ORIGINAL'})
+            edits.extend(e)
+            relevant = any((set(x.props) & set(vacuity_props)) or '*' in x.props
+                           for x in c.clauses if x.kind == 'ensures' and x.mode in ('both', mode) and x.label != 'inv.wf')
+            takes_part = (mode != 'strict' or c.strict)
+            if relevant and takes_part and not f.in_trait_impl:
+                is_result = f.ret_text is not None and re.match(r'(Result|StdResult)\b', f.ret_text or '')
+                variants = []
+                gl = [g for g in groups if g.get('assume')]
+                if gl:
+                    for g in gl:
+                        if any(a.strip() == 'false' for a in g['assume']):
+                            continue
+                        variants.append((g['name'], list(g['assume'])))
+                else:
+                    variants.append(('all', []))
+                end = toks[f.body_close].end
+                copies = []
+                for vname, extra in variants:
+                    vc = FnContract(c.qname)
+                    vc.params, vc.ret, vc.entry, vc.loops, vc.closures, vc.attrs = c.params, c.ret, c.entry, c.loops, c.closures, c.attrs
+                    vc.clauses = [x for x in c.clauses if x.kind == 'requires'] + [
+                        Clause('ensures', 'vacuity.%s' % vname, ['*'], 'both',
+                               ('%s is Err' % c.ret) if is_result else 'false', 'generated')]
+                    ce, cstart, _, _ = fn_edits(src, toks, f, vc, mode, mapping,
+                                                {'suffix': '__vac_%s' % vname, 'labels': None, 'extra_requires': extra,
+                                                 'external_body': False, 'marker': '%s#vac#%s' % (f.qname, vname)})
+                    rel = [(a - cstart, b - cstart, t) for a, b, t in ce]
+                    txt = apply_edits(src[cstart:end], rel)
+                    if txt.startswith('pub '):
+                        txt = txt[4:]
+                    copies.append(txt)
+                edits.append((end, end, '\n' + '\n'.join(copies) + '\n'))
+                finfo['vacuity_twins'] = [v[0] for v in variants]
+        elif mode == 'strict' and not c.strict:
             e, _, nl, nc = fn_edits(src, toks, f, c, mode, mapping,
                                     {'suffix': None, 'labels': None, 'extra_requires': [],
                                      'external_body': True, 'marker': f.qname, 'note': 'NOT-IN-STRICT'})
@@ -1182,11 +1223,12 @@ def special_impls(text, modpath, report):
     return apply_edits(text, edits)
 
 
-def mark_lemmas(text):
-    """`//@lemma props=..` + following proof fn  ->  /*@L spec::name props=..*/ <fn item> /*@E*/"""
+def mark_lemmas(text, vacuity_props=None):
+    """`//@lemma props=..` + following proof fn  ->  /*@L spec::name props=..*/ <fn item> /*@E*/
+    vacuity file: the lemma itself is not re-proved; a twin with `ensures false` must fail (its premises are satisfiable)"""
     out = []
     pos = 0
-    for m in re.finditer(r'//@lemma props=(\S+)\n', text):
+    for m in re.finditer(r'//@(lemma|probe) props=(\S+)\n', text):
         out.append(text[pos:m.start()])
         rest = text[m.end():]
         mm = re.match(r'\s*(?:#\[[^\]]*\]\s*)*pub (?:broadcast )?proof fn (\w+)', rest)
@@ -1197,7 +1239,33 @@ def mark_lemmas(text):
         while not (toks[k].kind == 'punct' and toks[k].text == '{' and _depth0(toks, k)):
             k += 1
         end = toks[match_close(toks, k)].end
-        out.append('/*@L spec::%s props=%s*/\n%s\n/*@E*/' % (mm.group(1), m.group(1), rest[:end]))
+        item = rest[:end]
+        props = m.group(2)
+        if vacuity_props is None:
+            if m.group(1) == 'lemma':
+                out.append('/*@L spec::%s props=%s*/\n%s\n/*@E*/' % (mm.group(1), props, item))
+        else:
+            pl = props.split(',')
+            rel = '*' in pl or bool(set(pl) & set(vacuity_props)) or m.group(1) == 'probe'
+            if m.group(1) == 'lemma':
+                out.append('#[verifier::external_body] /*@VACUITY-ORIGINAL*/\n' + item)
+            if rel:
+                # twin: same premises, `ensures false`
+                e = None
+                for q in range(k - 1, -1, -1):
+                    if toks[q].kind == 'ident' and toks[q].text == 'ensures' and _depth0(toks, q):
+                        e = q
+                        break
+                if e is None:
+                    raise GenError('lemma %s has no ensures' % mm.group(1))
+                name_tok = next(q for q, t in enumerate(toks) if t.kind == 'ident' and t.text == mm.group(1))
+                twin = (rest[:toks[name_tok].end] + '__vac' + rest[toks[name_tok].end:toks[e].start]
+                        + 'ensures\n/*@L spec::%s::vacuity props=*/\n false,\n/*@E*/\n' % mm.group(1)
+                        + rest[toks[k].start:end])
+                twin = twin.replace('pub broadcast proof fn', 'pub proof fn')
+                twin = twin.replace('proof fn ', '/*@F spec::%s#vac#lemma*/ proof fn ' % mm.group(1), 1)
+                twin = re.sub(r'#!?\[trigger[^\]]*\]', '', twin)
+                out.append('\n#[verifier::spinoff_prover]\n' + twin.lstrip())
         pos = m.end() + end
     out.append(text[pos:])
     return ''.join(out)
@@ -1228,7 +1296,7 @@ def read_dir_rs(d):
     return '\n'.join(out)
 
 
-def generate(mode, out_path):
+def generate(mode, out_path, vacuity_props=None):
     report = {'mode': mode, 'functions': [], 'types': [], 'rules': {}, 'files': [],
               'cargo_env': cargo_env()}
     src_root = os.path.join(REPO, 'src')
@@ -1249,7 +1317,7 @@ def generate(mode, out_path):
         s = strip_attrs_and_uses(s, report)
         s = rewrite_tokens(s, mp, report)
         s = special_impls(s, mp, report)
-        s, tnames = weave(s, mp, contracts, mode, report, used)
+        s, tnames = weave(s, mp, contracts, mode, report, used, vacuity_props)
         s = s + derive_standins(mp, tnames)
         texts[mp] = s
         report['files'].append({'module': mp, 'path': os.path.relpath(f, REPO),
@@ -1268,7 +1336,17 @@ def generate(mode, out_path):
     tops = [m for m, _ in mods if '::' not in m]
     shim = read_dir_rs(os.path.join(VERIF, 'shim'))
     spec = read_dir_rs(os.path.join(VERIF, 'spec'))
-    spec = mark_lemmas(spec)
+    spec = mark_lemmas(spec, vacuity_props)
+    if vacuity_props is not None:
+        # helper lemmas are not re-proved in the vacuity file
+        spec = re.sub(r'(?m)^(pub (?:broadcast )?proof fn (?!\w+__vac\b)(?!probe_))',
+                      r'#[verifier::external_body] /*@VACUITY-ORIGINAL*/ \1', spec)
+        spec = spec.replace('#[verifier::external_body] /*@VACUITY-ORIGINAL*/\n#[verifier::external_body] /*@VACUITY-ORIGINAL*/ ',
+                            '#[verifier::external_body] /*@VACUITY-ORIGINAL*/ ')
+        spec = re.sub(r'#\[verifier::external_body\]\s*\n#\[verifier::external_body\] /\*@VACUITY-ORIGINAL\*/ ',
+                      '#[verifier::external_body] ', spec)
+    if vacuity_props is None:
+        spec = re.sub(r'//@probe-begin.*?//@probe-end', '', spec, flags=re.S)
     strict_def = 'pub open spec fn strict() -> bool { %s }\n' % ('true' if mode == 'strict' else 'false')
     out = (HEAD + 'pub mod shim {\n' + strict_def + shim + '\n}\n'
            + 'pub mod spec {\n' + MOD_PRELUDE.replace('#[allow(unused_imports)] use crate::spec::*;\n', '')
